@@ -236,3 +236,29 @@ def range_triple_specs(rng, n, universe="abcdefgh"):
         rules.append(tok("KW", lit(c + rng.choice(universe))))
         out.append(spec("rng3-%d" % i, rules))
     return out
+
+
+def card_nesting_specs():
+    """repetition / option applied to a one-alternative group whose first or last element is itself a repetition:
+    outer(cat(X, Y)) for outer in ? * + and X, Y in literal / class / class+ / class* / literal?"""
+    import itertools
+    outers = [("opt", opt), ("star", star), ("plus", plus)]
+    elems = [("lit", lambda: lit("a")), ("cls", lambda: cls(["b-c"])), ("clsplus", lambda: plus(cls(["b-c"]))),
+             ("clsstar", lambda: star(cls(["b-c"]))), ("litopt", lambda: opt(lit("d")))]
+    rules = []
+    for (on, of), (xn, xf), (yn, yf) in itertools.product(outers, elems, elems):
+        x, y = xf(), yf()
+        if py_nullable(cat(x, y), {}) and on in ("star", "plus"):
+            continue       # a repetition of something nullable is ambiguous by construction; not the point here
+        rules.append(("%s_%s_%s" % (on, xn, yn), of(cat(x, y))))
+    out = []
+    per = 4
+    for i in range(0, len(rules), per):
+        chunk = rules[i:i + per]
+        rs = []
+        for k, (nm, e) in enumerate(chunk):
+            # own prefix per rule, common terminator; also the bare group followed by a digit (no prefix)
+            rs.append(tok("R%d" % k, cat(lit(chr(ord("A") + k)), e, lit("!"))))
+        rs.append(tok("BARE", cat(chunk[0][1], lit("9"))) if not py_nullable(chunk[0][1], {}) else tok("BARE", lit("9")))
+        out.append(spec("cardnest-%d-%s" % (i // per, chunk[0][0]), rs))
+    return out
